@@ -14,7 +14,7 @@ differences inside the control intervals -> d/dt p(t); the property demands  d/d
 rockit's own sample(ocp.der(p)) returns v + c as well, but d/dt p(t) equals v.
 """
 import sys
-sys.path.insert(0, '/tmp/nx_pydeps')   # networkx (optional dependency of SplineMethod)
+sys.path.insert(0, '/verif/pydeps')   # networkx (optional dependency of SplineMethod)
 import numpy as np, casadi as ca
 from rockit import Ocp, SplineMethod
 
